@@ -28,6 +28,59 @@ def _direct_dtype(y):
     return any((attr_chain(v) or ("",))[-1] == "_dtype" for v in pos + kws)
 
 
+def weak_bounds(ctx, tk):
+    """NEP 50: a Python int combined with an array must fit the array's dtype - np.minimum(10**10, int32_lengths) raises
+    OverflowError where the int64 configuration clamps silently.  The start / stop / step of a caller's slice therefore reach the
+    index arithmetic only after they were clamped against a quantity derived from the row lengths (pure Python max / min, or a
+    helper doing that): then every value that is combined with index-typed arrays is at most one longer than the longest row"""
+    f = ctx.program.funcs.get("raggedshape.RaggedView2.col_slice")
+    what = "the start / stop / step of a caller's column slice are clamped (in Python arithmetic) before they meet index-typed arrays"
+    if f is None:
+        ctx.unknown("C19.g", None, what, "RaggedView2.col_slice not found", engine="KB")
+        return
+    fa = ctx.fa(f)
+    sp = f.params[1]
+    raw, clamped = [], 0
+    parents = {}
+    for node in ast.walk(f.node):
+        for ch in ast.iter_child_nodes(node):
+            parents[ch] = node
+    for n in fa.cfg.stmts():
+        for e in _exprs_of(n):
+            for x in ast.walk(e):
+                if not (isinstance(x, ast.Attribute) and x.attr in ("start", "stop", "step") and isinstance(x.value, ast.Name) and x.value.id == sp):
+                    continue
+                t = fa.term(x, n)
+                base = t.a[0] if t.k == "attr" else None
+                if base is None or not any(a.k == "param" for a in alts(base)):
+                    continue            # read from the re-bound (already clamped) slice object
+                par = parents.get(x)
+                ok = False
+                if isinstance(par, ast.Call) and x in par.args:
+                    fn = par.func
+                    nm = fn.attr if isinstance(fn, ast.Attribute) else (fn.id if isinstance(fn, ast.Name) else "")
+                    if nm in ("max", "min") or "clamp" in nm.lower() or "clip" in nm.lower():
+                        ok = True
+                if isinstance(par, ast.Compare) and all(isinstance(c, ast.Constant) and c.value is None for c in par.comparators):
+                    ok = True           # `is None` tests do no arithmetic
+                if ok:
+                    clamped += 1
+                else:
+                    raw.append(x)
+    ctx.decide("C19.g", f, what, False if raw else (True if clamped else None),
+               "`%s` is used as it came from the caller: under 32-bit indices a bound such as 10**10 raises OverflowError (Python int out of bounds for int32) "
+               "in np.minimum / np.maximum against the row lengths, under 64-bit it is clamped" % (ast.unparse(raw[0]) if raw else "",),
+               node=(raw[0] if raw else None), key="weak-bounds", engine="KB")
+
+
+def _exprs_of(n):
+    if n.ast is None:
+        return []
+    if n.kind == "test":
+        return [n.ast]
+    return [n.ast] if isinstance(n.ast, ast.AST) else []
+
+
 def check(ctx, tier):
     tk = Toolkit(ctx)
     gather(ctx, tk)
@@ -37,6 +90,7 @@ def check(ctx, tier):
     exported_width(ctx, tk)
     coded_in_configured_width(ctx, tk)
     no_narrowing_before_validation(ctx, tk)
+    weak_bounds(ctx, tk)
     fs = [ctx.func(VB + n) for n in ("_index_rows", "set_dtype", "__init__")] + [ctx.func("raggedshape.RaggedShape.__init__"), ctx.func("raggedshape.build_indices")]
     hazards.h4_take_with_unknown_index(ctx, tk, "C19.a", fs)
     W.report(ctx, tk, "C19.d", fs)
@@ -291,7 +345,8 @@ def coded_in_configured_width(ctx, tk):
             for x in walk(codes):
                 if np_call(x, {"zeros", "empty", "ones", "full", "zeros_like", "empty_like"}):
                     dt = dict(x.a[2]).get("dtype")
-                    ok_dt = dt is not None and (attr_chain(dt) or ("",))[-1] == "_dtype"
+                    # ... `_dtype` itself, or the dtype of the object's own code buffer / of a view of it (already in the configured width)
+                    ok_dt = dt is not None and ((attr_chain(dt) or ("",))[-1] == "_dtype" or hazards.index_typed(dt))
                     if dt is not None and not ok_dt and dt.k == "attr" and dt.a[1] == "dtype":
                         promoting.append(x)
             recast = any(x.k == "call" and x.a[0].k == "attr" and x.a[0].a[1] == "astype" and x.a[1] and (attr_chain(x.a[1][0]) or ("",))[-1] == "_dtype" for x in alts(codes)) or \
